@@ -21,6 +21,8 @@ from mosaik.exceptions import ScenarioError, SimulationError
 import mosaik._debug as _debug
 
 seams.install()
+from . import mutants as _mutants  # noqa: E402
+ACTIVE_MUTANT = _mutants.apply_from_env()      # sensitivity self-test only (DSIM_MUTANT)
 
 _ORIG_STEP = scheduler.step
 _DEVNULL = io.StringIO()
